@@ -41,6 +41,10 @@ EXPLANATION += ' Added: (R7) the charge / nelec / atcorenums accessors evaluated
 TECHNIQUE += '; interpreter-wide setter clause borrowed from C16'
 EXPLANATION += ' Added: (R8) no function reachable from the API switches the attrs validators off for the process (`attrs.validators.disabled()` / `set_disabled`): every other rule of this property rests on them.'
 # --- end metadata batch 8
+# --- metadata added after the round-3 refactoring twins
+TECHNIQUE += '; evaluation of the getters on model objects with pairwise different sources'
+EXPLANATION += ' R2 / R3 no longer compare the text of the returned expression: nelec, spinpol and charge are evaluated on model objects in which the orbitals, the stored values and the core charges all give different numbers (orbitals with and without occupations, none; core charges given, defaulted from the atomic numbers, absent).'
+# --- end metadata round-3 twins
 
 
 def run(ctx):
